@@ -15,6 +15,7 @@ long vf_cur_case = -1;
 long vf_cur_op = 0;
 int vf_nviol = 0;
 volatile int vf_asan_hits = 0;
+long vf_oom_k; bool vf_oom_all; long vf_oom_last_allocs, vf_oom_last_hits;
 
 static int res_fd = -1;
 static char case_desc[512];
@@ -134,12 +135,11 @@ void vf_init(int argc, char **argv, const char *harness) {
 
     struct sigaction sa; memset(&sa, 0, sizeof sa);
     sa.sa_handler = vtalrm_handler; sigaction(SIGVTALRM, &sa, NULL);
-#if !defined(__SANITIZE_ADDRESS__) && !defined(__SANITIZE_THREAD__)
+    /* sanitizer builds run with handle_segv=0 etc., so fatal signals always come here and
+     * are recorded with the current case (the driver restarts the shard after that case) */
     sa.sa_handler = crash_handler; sa.sa_flags = SA_RESETHAND;
     sigaction(SIGSEGV, &sa, NULL); sigaction(SIGBUS, &sa, NULL);
     sigaction(SIGFPE, &sa, NULL); sigaction(SIGILL, &sa, NULL);
-#endif
-    sa.sa_handler = crash_handler; sa.sa_flags = SA_RESETHAND;
     sigaction(SIGABRT, &sa, NULL);
 }
 
